@@ -71,7 +71,12 @@ func GenerateRules(t *rapid.T, id string, avoid map[string]string) *Schema {
 			f.Rules = r
 			g.tagf("rule:map")
 		}
-		if f.Rules != nil && f.Card == Singular && g.oneIn(4, "required") {
+		if f.Card == Singular && f.Kind != KMessage && g.oneIn(4, "optionalfield") {
+			// proto3 optional: the same rules, explicit presence (a synthetic oneof in the descriptor)
+			f.Card = Optional
+			g.tagf("rule:on_optional_field")
+		}
+		if f.Rules != nil && (f.Card == Singular || f.Card == Optional) && g.oneIn(4, "required") {
 			f.Rules.Required = true
 			g.tagf("rule:required")
 		}
